@@ -215,11 +215,11 @@ def triage(ctx, prop, case, fail):
             if reason:
                 return "dismissed", "out_of_domain:" + reason
         # 3. run-time tolerance witness
-        wit = getattr(prop, "USE_WITNESS", False)
+        wit = getattr(prop, "WITNESS", ())
         if wit:
             from . import witness
 
-            reason = witness.examine(prop, case, ctx, fail)
+            reason = witness.examine(prop, case, ctx, fail, wit)
             if reason:
                 return "dismissed", reason
         # 4. known findings
@@ -496,3 +496,85 @@ def run_shard(prop, tier, seed_value, shard, nshards, only=None):
     out = ctx.dump()
     out["wall_s"] = time.time() - t0
     return out
+
+
+# ---------------------------------------------------------------- histories (stateful)
+def make_history_machine(ctx, prop, rules_spec, init_strategy, step_count=12):
+    """Build a RuleBasedStateMachine whose rules append steps to a history and execute them on an
+    executor provided by the property:
+
+      prop.Executor(init)         -> object with .apply(step) raising Fail, where step = (name, args...)
+      prop.account(case, ctx)     -> record class / non-triviality / sample for a finished history
+      rules_spec: {name: tuple of strategies for the step's arguments}
+
+    The case handed to triage / replay is ("HIST", init, (step, ...)); prop.check re-executes it.
+    """
+    from hypothesis import strategies as st
+    from hypothesis.stateful import RuleBasedStateMachine, rule, initialize, precondition
+
+    class Machine(RuleBasedStateMachine):
+        STEP_COUNT = step_count
+        SHRINK_BUDGET = None
+        BEST = None
+
+        def __init__(self):
+            RuleBasedStateMachine.__init__(self)
+            self.ex = None
+            self.init = None
+            self.steps = []
+            self.dead = False
+            self.counted = False
+
+        @initialize(init=init_strategy)
+        def start(self, init):
+            if self.SHRINK_BUDGET is not None:
+                if self.SHRINK_BUDGET[0] <= 0:
+                    self.dead = True
+                    return
+                self.SHRINK_BUDGET[0] -= 1
+            self.init = init
+            self._do(None)
+
+        def _case(self):
+            return ("HIST", self.init, tuple(self.steps))
+
+        def _do(self, step):
+            if self.dead:
+                return
+            if step is not None:
+                self.steps.append(step)
+            try:
+                if step is None:
+                    self.ex = prop.Executor(self.init)
+                    self.ex.start()
+                else:
+                    self.ex.apply(step)
+            except Fail as f:
+                self.dead = True
+                case = self._case()
+                try:
+                    handle_fail(ctx, prop, case, f)
+                except Violation:
+                    if self.BEST is not None:
+                        self.BEST[0] = ctx.last_fail
+                    raise
+
+        def teardown(self):
+            if self.init is not None and not self.counted and ctx.counting:
+                self.counted = True
+                ctx.evaluations += 1
+                ctx.per_stratum[ctx.stratum] += 1
+                ctx.note("steps", len(self.steps))
+                prop.account(self._case(), ctx)
+
+    for name, strategies in rules_spec.items():
+        def mk(name, n):
+            def fn(self, **kw):
+                self._do((name,) + tuple(kw["a%d" % i] for i in range(n)))
+
+            fn.__name__ = "rule_" + name
+            return fn
+
+        kwargs = {"a%d" % i: s for i, s in enumerate(strategies)}
+        setattr(Machine, "rule_" + name, rule(**kwargs)(mk(name, len(strategies))))
+    return Machine
